@@ -711,7 +711,7 @@ Lemma release_steps_wle w o P : WInv w → P ≠ [] →
   wle (pool_key P) w (pstep w o).1.
 Proof.
   intros HW HP Ho.
-  destruct o as [e|key nodes orc fl|ns name uid node orc fl|n orc oun fl|ip orc ocl fl|k ip ocl fl|key fl|io|conf]; try done.
+  destruct o as [e|key nodes orc fl|ns name uid node orc fl|n orc oun fl|ip orc ocl fl|k ip ocl fl|sp fl|io|conf]; try done.
   - by apply event_step_wle.
   - cbn [pstep]. pose proof (resync_section_wle P w ip orc ocl fl HP) as H.
     destruct (resync_section w ip orc ocl fl) as [w' [| |]]; done.
@@ -991,12 +991,15 @@ Qed.
 (** what C07 assumes about a step, besides [wf_op]:
     - bind never allocates for a pod that carries a pool annotation ([bind_no_alloc]: its key already holds an IP,
       which is what filter guarantees when the Pool object is visible; the other case is the recorded defect K2);
-    - the periodic pod-IP sync finds no lost (free) IP of a pool pod to re-adopt;
+    - the pod-IP sync finds no lost (free) IP of a pool pod to re-adopt ([synced_obj]: the object it works with - the
+      informer's current object when it was handed that or an object of the same UID, the given object when the informer
+      shows no pod of that name, none when it was handed an earlier incarnation);
     - pool names in API requests are '_'-free (a name with '_' aliases the prefix of another pool: finding K4). *)
 Definition wf_c07 (w : world) (o : pop2) : Prop :=
   match o with
   | P1 (PBind ns name uid _ _ _) => uid ≠ [] ∧ bind_no_alloc w ns name
-  | P1 (PSyncPod key _) => ∀ l, w_lister w !! key = Some l → pd_pool l ≠ [] → ∀ x, x ∈ pd_ips l → x ∉ i_unalloc (w_ipam w)
+  | P1 (PSyncPod p _) => wf_pod p ∧
+      ∀ l, synced_obj w p = Some l → pd_pool l ≠ [] → ∀ x, x ∈ pd_ips l → x ∉ i_unalloc (w_ipam w)
   | P1 o => wf_op w o
   | PApiPool name _ _ _ _ => free Keys.us name
   end.
@@ -1019,7 +1022,7 @@ Definition size_in_force (w : world) (o : pop2) (P : str) : N :=
 Definition CInv (w : world) : Prop := WInv w ∧ ns_ok (w_ipam w).
 
 Lemma wf_c07_wf_op w o : wf_c07 w (P1 o) → wf_op w o.
-Proof. destruct o; cbn [wf_c07 wf_op]; try done. by intros [? _]. Qed.
+Proof. destruct o; cbn [wf_c07 wf_op]; try done; by intros [? _]. Qed.
 
 Lemma cinv_init provider nodes : CInv (world0 provider nodes).
 Proof. split; [apply winv_init|constructor]. Qed.
@@ -1045,7 +1048,7 @@ Proof.
     cut (ns_ok (w_ipam (pstep w o).1) ∧
          (N.of_nat (cnt (w_ipam (pstep w o).1) (pool_key P)) <= N.max (N.of_nat (cnt (w_ipam w) (pool_key P))) (size_in_force w (P1 o) P))%N).
     { intros [? ?]. done. }
-    destruct o as [e|key nodes orc fl|ns name uid node orc fl|n orc oun fl|ip orc ocl fl|k ip ocl fl|key fl|io|conf].
+    destruct o as [e|key nodes orc fl|ns name uid node orc fl|n orc oun fl|ip orc ocl fl|k ip ocl fl|sp fl|io|conf].
     + apply Hsame. cbn [pstep fst]. by apply env_step_ipam.
     + cbn [pstep size_in_force]. destruct (w_pods w !! key) as [p|] eqn:Ep; [|cbn [fst]; split; [done|lia]].
       destruct (wi_pods w HW key p Ep) as [_ W].
@@ -1069,12 +1072,13 @@ Proof.
     + apply Hwle. by apply release_steps_wle.
     + apply Hwle. by apply release_steps_wle.
     + apply Hwle. by apply release_steps_wle.
-    + cbn [pstep size_in_force]. destruct (w_lister w !! key) as [l|] eqn:El; [|by apply Hsame]. cbn [fst].
-      destruct (wi_lister w HW key l El) as [_ W]. unfold sync_pod_ip. destruct (pd_phase l =? 1); [|by apply Hsame].
+    + cbn [pstep size_in_force fst]. destruct Hwf as [Wsp Hwf]. rewrite sync_given_obj.
+      destruct (synced_obj w sp) as [l|] eqn:El; [|by apply Hsame].
+      pose proof (synced_obj_wf w sp l HW Wsp El) as W. unfold sync_pod_ip. destruct (pd_phase l =? 1); [|by apply Hsame].
       destruct (decide (pd_pool l = [])) as [Epl|Epl].
       * destruct (sync_ips_other l fl (pool_key P) (pod_key_nopool l P W Epl HP) (pd_ips l) 0%nat w (wi_ipam w HW)) as (_ & Hc & Hp).
         split; [unfold ns_ok; by rewrite Hp|]. rewrite Hc. lia.
-      * apply Hsame. apply sync_ips_no_free. by apply (Hwf l El Epl).
+      * apply Hsame. apply sync_ips_no_free. by apply (Hwf l eq_refl Epl).
     + destruct io as [conf lf df| | | | | | | | | | | |]; cbn [wf_c07 wf_op] in Hwf; try done. destruct Hwf as [-> _].
       cbn [pstep fst set_ipam w_ipam size_in_force].
       destruct (config_step_c07 w (OConfigure conf lf []) (pool_key P) (wi_ipam w HW) Hns I) as [Hle Hns'].
@@ -1143,7 +1147,7 @@ Proof.
   intros [HW Hns] Hwf. destruct o as [o|name size pre picks nfail].
   - split; [by apply winv_step|]. cbn [pstep2 fst]. destruct (wi_ipam w HW) as [HIi HIr].
     assert (∀ w', i_pools (w_ipam w') = i_pools (w_ipam w) → ns_ok (w_ipam w')) as Hp by (intros w' E; unfold ns_ok; by rewrite E).
-    destruct o as [e|key nodes orc fl|ns name uid node orc fl|n orc oun fl|ip orc ocl fl|k ip ocl fl|key fl|io|conf].
+    destruct o as [e|key nodes orc fl|ns name uid node orc fl|n orc oun fl|ip orc ocl fl|k ip ocl fl|sp fl|io|conf].
     + apply Hp. cbn [pstep fst]. by rewrite env_step_ipam.
     + cbn [pstep]. destruct (w_pods w !! key) as [p|] eqn:Ep; [|done].
       destruct (filter_section w p nodes orc fl) as [w' r] eqn:Ef.
@@ -1157,7 +1161,7 @@ Proof.
     + apply Hp. by apply (release_steps_wle w _ (L "p")).
     + apply Hp. by apply (release_steps_wle w _ (L "p")).
     + apply Hp. by apply (release_steps_wle w _ (L "p")).
-    + cbn [pstep]. destruct (w_lister w !! key) as [l|]; [|done]. cbn [fst]. apply Hp.
+    + cbn [pstep fst]. rewrite sync_given_obj. destruct (synced_obj w sp) as [l|]; [|done]. apply Hp.
       unfold sync_pod_ip. destruct (pd_phase l =? 1); [|done]. apply sync_ips_pools.
     + destruct io as [conf lf df| | | | | | | | | | | |]; cbn [wf_op2 wf_op] in Hwf; try done. destruct Hwf as [-> _].
       cbn [pstep fst set_ipam w_ipam].
@@ -1197,7 +1201,7 @@ Definition c07_ex_ops : list pop2 := [
   P1 (PEnv (EPoolSet (L "p1") (Some 3)));
   P1 (PFilter (pk k2_p2) [L "node1"] {| o_first := None; o_choice := Some 174325764; o_order := [] |} no_faults);
   P1 (PBind (L "ns1") (L "job-7f9c6d-k2") (L "k2") (L "node1") {| o_first := Some 174325764; o_choice := None; o_order := [] |} no_faults);
-  P1 (PSyncPod (pk k2_p1) no_faults) ].
+  P1 (PSyncPod k2_p1 no_faults) ].
 
 (** result and pool count after each step *)
 Fixpoint pouts2 (P : str) (w : world) (ops : list pop2) : list (pout2 * nat) :=
@@ -1223,12 +1227,12 @@ Proof.
   exists x, e. apply by_key_spec. rewrite E. by left.
 Qed.
 
-Lemma sync_no_free_check w key :
-  match w_lister w !! key with
+Lemma sync_no_free_check w p :
+  match synced_obj w p with
   | Some l => forallb (λ x, negb (bool_decide (x ∈ i_unalloc (w_ipam w)))) (pd_ips l)
   | None => true
   end = true →
-  ∀ l, w_lister w !! key = Some l → pd_pool l ≠ [] → ∀ x, x ∈ pd_ips l → x ∉ i_unalloc (w_ipam w).
+  ∀ l, synced_obj w p = Some l → pd_pool l ≠ [] → ∀ x, x ∈ pd_ips l → x ∉ i_unalloc (w_ipam w).
 Proof.
   intros H l El _ x Hx. rewrite El in H. rewrite forallb_forall in H. apply elem_of_list_In in Hx.
   specialize (H x Hx). apply negb_true_iff, bool_decide_eq_false in H. done.
@@ -1252,6 +1256,7 @@ Proof.
   - vm_compute. intuition discriminate.
   - discriminate.
   - apply bind_no_alloc_check. vm_compute. reflexivity.
+  - apply mk_pod_wf; reflexivity.
   - apply sync_no_free_check. vm_compute. reflexivity.
 Qed.
 
